@@ -61,12 +61,24 @@ class Shadow:
         return off
 
     def has(self, t):
-        if t.numel() == 0 or t.is_sparse or t.layout != torch.strided:
+        if t.layout == torch.sparse_coo:
+            return self.has(t._values())
+        if t.numel() == 0 or t.layout != torch.strided:
             return False
         return t.untyped_storage().data_ptr() in self.st
 
     def get(self, t):
         """object array with t.shape"""
+        if t.layout == torch.sparse_coo:
+            # COO tensor: concrete indices, (possibly symbolic) values; duplicates add up
+            vals = self.get(t._values())
+            idx = t._indices().numpy()
+            out = np.empty(tuple(t.shape), dtype=object)
+            out[...] = Sym.const(0.0)
+            for k in range(idx.shape[1]):
+                pos = tuple(int(i) for i in idx[:, k])
+                out[pos] = out[pos] + vals[k]
+            return out
         if t.numel() == 0:
             return np.empty(tuple(t.shape), dtype=object)
         p = t.untyped_storage().data_ptr()
